@@ -24,6 +24,7 @@ import json
 from harness import ledgergen as lg
 from harness.core import MachineryError
 
+GEN_PARTS = 8       # Gen_Ledger2 is emitted in 8 portions (by first directive)
 OOD_AMOUNT = {'n': [0, 0], 'c': '<out of the 32-bit domain>'}
 
 
@@ -445,15 +446,27 @@ def user_keys(abstract_entries, limit=8):
 
 # ---- C2S recording ------------------------------------------------------------------------------------------------
 class Recorder:
+    """records one ndjson line per observed ledger; the file is handed to TLC (Trace_Ledger) in portions of at most
+    CHUNK lines / CHUNK_BYTES bytes so that neither TLC nor this process ever holds the whole trace"""
+    CHUNK = 500
+    CHUNK_BYTES = 40 * 1000 * 1000
+
     def __init__(self, ctx, path):
         self.ctx = ctx
         self.path = path
         self.f = open(path, 'w')
-        self.n = 0
+        self.n = 0                # ids handed out (all portions)
+        self.in_file = 0
+        self.bytes = 0
         self.cases = {}
         self.kinds = {}
         self.uncovered = {}
         self.cells = 0
+        self.lines = 0
+        self.rejected = 0
+        self.not_wellformed = 0
+        self.selftested = False
+        self.first_with_posting = None
 
     def add(self, entries, options, kind, abstract=None, text_lookups=False):
         """observe one ledger on the real code and append the event; returns False if skipped (out of domain)"""
@@ -475,7 +488,12 @@ class Recorder:
             return False          # structural problem already reported
         self.n += 1
         ev = {'id': self.n, 'kind': kind, 'ledger': abstract, 'keys': keys, 'rows': obs.rows}
-        self.f.write(json.dumps(ev) + '\n')
+        line = json.dumps(ev)
+        self.f.write(line + '\n')
+        self.in_file += 1
+        self.bytes += len(line)
+        if self.first_with_posting is None and obs.rows['postings']:
+            self.first_with_posting = line
         self.cases[self.n] = case
         self.kinds[kind] = self.kinds.get(kind, 0) + 1
         for k, v in obs.uncovered.items():
@@ -486,64 +504,78 @@ class Recorder:
         if self.n <= 1:
             ctx.sample({'leg': 'C2S', 'kind': kind, 'directives': len(abstract), 'keys': keys,
                         'first_posting_row': (obs.rows['postings'] or [None])[0]})
+        if self.in_file >= self.CHUNK or self.bytes >= self.CHUNK_BYTES:
+            self.judge()
         return True
 
     def selftest_line(self):
         """binding self-test: a copy of a recorded line with ONE cell corrupted (account of the first posting row);
         TLC must reject exactly that cell"""
-        self.f.flush()
-        with open(self.path) as f:
-            for line in f:
-                ev = json.loads(line)
-                if ev['rows']['postings']:
-                    self.n += 1
-                    ev['id'] = self.n
-                    ev['kind'] = 'selftest-corrupted'
-                    ev['rows']['postings'][0]['account'] += ':Corrupted'
-                    self.f.write(json.dumps(ev) + '\n')
-                    return self.n
-        raise MachineryError('binding self-test: no recorded line has a posting')
+        if self.first_with_posting is None:
+            return None
+        ev = json.loads(self.first_with_posting)
+        self.n += 1
+        ev['id'] = self.n
+        ev['kind'] = 'selftest-corrupted'
+        ev['rows']['postings'][0]['account'] += ':Corrupted'
+        self.f.write(json.dumps(ev) + '\n')
+        self.in_file += 1
+        self.selftested = True
+        return self.n
 
-    def close(self):
+    def judge(self):
+        """TLC (Trace_Ledger) judges every line of the current portion; returns the rejected verdicts"""
+        ctx = self.ctx
+        if self.in_file == 0:
+            return []
+        selftest = None if self.selftested else self.selftest_line()
         self.f.close()
+        res = ctx.tlc('Trace_Ledger', 'Trace_Ledger.cfg', leg='C2S', workers=1, env={'TRACE_FILE': self.path},
+                      timeout=ctx.pick(900, 3600), jvm=('-Xss64m', '-Xmx6g'))
+        rejected = [p for p in res.printed if isinstance(p, dict) and p.get('verdict') == 'rejected']
+        skipped = [p for p in res.printed if isinstance(p, dict) and p.get('verdict') == 'skipped']
+        if selftest is not None:
+            mine = [rj for rj in rejected if rj['id'] == selftest]
+            if not mine or not any(m[0] == 'postings' and m[2] == 'account' for m in mine[0]['mism']):
+                raise MachineryError('binding self-test: the deliberately corrupted trace line %d was not rejected' % selftest)
+            rejected = [rj for rj in rejected if rj['id'] != selftest]
+        for rj in rejected:
+            case = self.cases.get(rj['id'])
+            seen = set()
+            for t, n, c, exp in sorted(rj['mism'], key=lambda x: (x[0], x[1], x[2])):
+                key = '%s.%s' % (t, c) if n else '%s:%s' % (t, c)
+                if key in seen:
+                    continue
+                seen.add(key)
+                try:
+                    exp = json.loads(exp)
+                except ValueError:
+                    pass
+                ctx.violation(key, 'row %d of #%s, column %s: not what the specification\'s traversal gives' % (n, t, c),
+                              case, 'C2S', exp, None)
+        if res.violated:
+            raise MachineryError('Trace_Ledger reports %s' % res.violated)
+        if res.post_failed or res.depth - 1 != self.in_file:
+            raise MachineryError('trace not consumed: depth %d, lines %d (%s)' % (res.depth, self.in_file, res.errors[:2]))
+        ctx.skipped += len(skipped)
+        ctx.traces += self.in_file - len(rejected) - len(skipped) - (1 if selftest is not None else 0)
+        self.lines += self.in_file
+        self.rejected += len(rejected)
+        self.not_wellformed += len(skipped)
+        self.in_file = 0
+        self.bytes = 0
+        self.cases = {}
+        self.f = open(self.path, 'w')
+        return rejected
 
-
-def judge(ctx, rec, what, selftest=None):
-    """TLC (Trace_Ledger) judges every recorded line"""
-    if rec.n == 0:
-        raise MachineryError('C2S: nothing recorded (%s)' % what)
-    res = ctx.tlc('Trace_Ledger', 'Trace_Ledger.cfg', leg='C2S', workers=1, env={'TRACE_FILE': rec.path},
-                  timeout=ctx.pick(900, 3600), jvm=('-Xss64m',))
-    rejected = [p for p in res.printed if isinstance(p, dict) and p.get('verdict') == 'rejected']
-    skipped = [p for p in res.printed if isinstance(p, dict) and p.get('verdict') == 'skipped']
-    if selftest is not None:
-        mine = [rj for rj in rejected if rj['id'] == selftest]
-        if not mine or not any(m[0] == 'postings' and m[2] == 'account' for m in mine[0]['mism']):
-            raise MachineryError('binding self-test: the deliberately corrupted trace line %d was not rejected' % selftest)
-        rejected = [rj for rj in rejected if rj['id'] != selftest]
-    for rj in rejected:
-        case = rec.cases.get(rj['id'])
-        seen = set()
-        for t, n, c, exp in sorted(rj['mism'], key=lambda x: (x[0], x[1], x[2])):
-            key = '%s.%s' % (t, c) if n else '%s:%s' % (t, c)
-            if key in seen:
-                continue
-            seen.add(key)
-            try:
-                exp = json.loads(exp)
-            except ValueError:
-                pass
-            ctx.violation(key, 'row %d of #%s, column %s: not what the specification\'s traversal gives' % (n, t, c),
-                          case, 'C2S', exp, None)
-    if res.violated:
-        raise MachineryError('Trace_Ledger reports %s' % res.violated)
-    if res.post_failed or res.depth - 1 != rec.n:
-        raise MachineryError('trace not consumed: depth %d, lines %d (%s)' % (res.depth, rec.n, res.errors[:2]))
-    ctx.skipped += len(skipped)
-    ctx.traces += rec.n - len(rejected) - len(skipped) - (1 if selftest is not None else 0)
-    ctx.leg('C2S', lines=rec.n, rejected=len(rejected), skipped_not_wellformed=len(skipped), kinds=rec.kinds,
-            cells=rec.cells, uncovered_cells=rec.uncovered, what=what)
-    return rejected
+    def finish(self, what):
+        rejected = self.judge()
+        self.f.close()
+        if not self.selftested and self.lines:
+            raise MachineryError('binding self-test: no recorded line has a posting')
+        self.ctx.leg('C2S', lines=self.lines, rejected=self.rejected, skipped_not_wellformed=self.not_wellformed,
+                     kinds=self.kinds, cells=self.cells, uncovered_cells=self.uncovered, what=what)
+        return rejected
 
 
 # ---- the check --------------------------------------------------------------------------------------------------------
@@ -569,47 +601,78 @@ def s2c_eval(arg):
     obs.cross_checks()
     viol = []
     bad = compare(lambda *a: len(viol) < 40 and viol.append(a), p['rows'], obs)
-    return {'lx': p['lx'], 'ledger': p['ledger'], 'keys': p['keys'], 'viol': viol, 'bad': bad, 'cells': obs.cells,
-            'uncovered': obs.uncovered, 'row1': p['rows']['postings'][:1]}
+    kinds = {}
+    for d in p['ledger']:
+        kinds[d['k']] = kinds.get(d['k'], 0) + 1
+    out = {'viol': viol, 'bad': bad, 'cells': obs.cells, 'uncovered': obs.uncovered, 'kinds': kinds,
+           'key': ledger_key(p['ledger']), 'nontrivial': 'txn' in kinds}
+    if viol or p.get('want_ledger'):
+        out.update(ledger=p['ledger'], keys=p['keys'], row1=p['rows']['postings'][:1])
+    return out
 
 
-def s2c_batch(ctx, printed, stats, rec, reload_every, procs):
-    import multiprocessing
-    args = [(p, n % 50 == 0) for n, p in enumerate(printed)]
-    if not _PARSED:
+class S2C:
+    """the spec->code replay: a pool of worker processes forked BEFORE any TLC output is held in memory"""
+
+    def __init__(self, ctx, rec, reload_every, procs):
+        import multiprocessing
+        self.ctx = ctx
+        self.rec = rec
+        self.reload_every = reload_every
+        self.stats = {'n': 0, 'cells': 0, 'bad': 0, 'uncovered': {}, 'kinds': {}, 'unprintable': 0}
+        self.seen = set()
         # parse the per-table statements (about 1 s each with TatSu) once, before the workers are forked
-        Observation([], lg.default_options(), printed[0]['keys'] if printed else []).run()
-    if procs > 1 and len(args) > 50:
-        with multiprocessing.get_context('fork').Pool(procs) as pool:
-            results = pool.map(s2c_eval, args, chunksize=max(1, min(64, len(args) // (procs * 4))))
-    else:
-        results = [s2c_eval(a) for a in args]
-    for r in results:
-        if 'machinery' in r:
-            raise MachineryError(r['machinery'])
-        case = {'kind': 'gen', 'ledger': r['ledger'], 'keys': r['keys']}
-        for key, clause, exp, got in r['viol']:
-            ctx.violation(key, clause, case, 'S2C', exp, got)
-        stats['n'] += 1
-        stats['cells'] += r['cells']
-        stats['bad'] += r['bad']
-        for k, v in r['uncovered'].items():
-            stats['uncovered'][k] = stats['uncovered'].get(k, 0) + v
-        for d in r['ledger']:
-            stats['kinds'][d['k']] = stats['kinds'].get(d['k'], 0) + 1
-        ctx.case(ledger_key(r['ledger']), any(d['k'] == 'txn' for d in r['ledger']), n=r['cells'])
-        ctx.traces += 1
-        if stats['n'] in (2, 70):
-            ctx.sample({'leg': 'S2C', 'ledger': r['ledger'], 'expected_postings_rows': r['row1']})
-        if rec is not None and reload_every and stats['n'] % reload_every == 0 and r['ledger']:
-            # the same ledger through beancount's own pipeline (print, parse, book, pad, validate): judged by the trace leg
-            try:
-                es, errs, opts = lg.load_entries({'entries': r['ledger'], 'options': {}})
-            except Exception:  # noqa  (printer limits: unprintable values) -- not a property matter
-                stats['unprintable'] = stats.get('unprintable', 0) + 1
+        Observation([], lg.default_options(), []).run()
+        self.pool = multiprocessing.get_context('fork').Pool(procs) if procs > 1 else None
+
+    def close(self):
+        if self.pool is not None:
+            self.pool.close()
+            self.pool.join()
+
+    def batch(self, printed):
+        ctx, stats = self.ctx, self.stats
+        args = []
+        for p in printed:
+            k = tuple(p['lx'])
+            if k in self.seen:
                 continue
-            if es:
-                rec.add(es, opts, 'gen-reloaded')
+            self.seen.add(k)
+            n = len(self.seen)
+            if n in (2, 70) or (self.reload_every and n % self.reload_every == 0):
+                p['want_ledger'] = True
+            args.append((p, n % 50 == 0))
+        it = self.pool.imap(s2c_eval, args, chunksize=16) if self.pool is not None else map(s2c_eval, args)
+        for r in it:
+            if 'machinery' in r:
+                raise MachineryError(r['machinery'])
+            if r['viol']:
+                case = {'kind': 'gen', 'ledger': r['ledger'], 'keys': r['keys']}
+                for key, clause, exp, got in r['viol']:
+                    ctx.violation(key, clause, case, 'S2C', exp, got)
+            stats['n'] += 1
+            stats['cells'] += r['cells']
+            stats['bad'] += r['bad']
+            for k, v in r['uncovered'].items():
+                stats['uncovered'][k] = stats['uncovered'].get(k, 0) + v
+            for k, v in r['kinds'].items():
+                stats['kinds'][k] = stats['kinds'].get(k, 0) + v
+            ctx.case(r['key'], r['nontrivial'], n=r['cells'])
+            ctx.traces += 1
+            if 'ledger' not in r:
+                continue
+            if stats['n'] in (2, 70):
+                ctx.sample({'leg': 'S2C', 'ledger': r['ledger'], 'expected_postings_rows': r['row1']})
+            if self.rec is not None and self.reload_every and stats['n'] % self.reload_every == 0 and r['ledger']:
+                # the same ledger through beancount's own pipeline (print, parse, book, pad, validate): judged by TLC
+                # in the trace leg
+                try:
+                    es, errs, opts = lg.load_entries({'entries': r['ledger'], 'options': {}})
+                except Exception:  # noqa  (printer limits: unprintable values) -- not a property matter
+                    stats['unprintable'] += 1
+                    continue
+                if es:
+                    self.rec.add(es, opts, 'gen-reloaded')
 
 
 def run(ctx):
@@ -643,29 +706,32 @@ def run(ctx):
     rec = Recorder(ctx, ctx.path('ledger_trace.ndjson'))
     # ---- S2C
     if not only or 'S2C' in only:
-        stats = {'n': 0, 'cells': 0, 'bad': 0, 'uncovered': {}, 'kinds': {}}
-        seen = set()
-        runs = [('Gen_Ledger1.cfg', {})] if ctx.quick else [('Gen_Ledger2.cfg', {})]
-        nsim = ctx.pick(2, 40)      # walks; every walk emits ~600 ledgers (all successors of each of its 6 states)
-        w = ctx.pick(2, 8)
-        runs.append(('Gen_LedgerSim.cfg', dict(simulate='num=%d' % max(1, nsim // w), depth=6, seed=ctx.seed, workers=w)))
-        for cfg, kw in runs:
-            res = ctx.tlc('Gen_Ledger', cfg, leg='GEN', **kw)
-            fresh = []
-            for p in res.printed:
-                k = tuple(p['lx'])
-                if k not in seen:
-                    seen.add(k)
-                    fresh.append(p)
-            s2c_batch(ctx, fresh, stats, rec, ctx.pick(9, 29), procs=ctx.pick(6, 12))
-            ctx.log('S2C %s: %d ledgers so far, %d cells, %d mismatching' % (cfg, stats['n'], stats['cells'], stats['bad']))
+        s2c = S2C(ctx, rec, ctx.pick(9, 29), procs=ctx.pick(4, 8))
+        stats = s2c.stats
+        # the generator output is consumed in bounded portions (a 2-directive ledger line is ~10 kB of JSON)
+        runs = [('Gen_Ledger1.cfg', dict(env={'GEN_PART': -1}))]
+        if not ctx.quick:
+            runs += [('Gen_Ledger2.cfg', dict(env={'GEN_PART': part})) for part in range(GEN_PARTS)]
+        # simulated walks of 6 directives; every walk emits ~600 ledgers (all successors of each of its states)
+        for n in range(ctx.pick(1, 6)):
+            w = ctx.pick(2, 8)
+            runs.append(('Gen_LedgerSim.cfg', dict(simulate='num=1', depth=6, seed=ctx.seed + n, workers=w,
+                                                   env={'GEN_PART': -1})))
+        try:
+            for cfg, kw in runs:
+                res = ctx.tlc('Gen_Ledger', cfg, leg='GEN', **kw)
+                s2c.batch(res.printed)
+                del res
+                ctx.log('S2C %s: %d ledgers so far, %d cells, %d mismatching' % (cfg, stats['n'], stats['cells'], stats['bad']))
+        finally:
+            s2c.close()
         missing = [k for k in ('txn', 'open', 'close', 'commodity', 'pad', 'balance', 'note', 'event', 'query', 'price',
                                'document', 'custom') if not stats['kinds'].get(k)]
         if missing:
             raise MachineryError('vacuity: directive kinds never generated: %s' % missing)
         ctx.leg('S2C', ledgers=stats['n'], cells=stats['cells'], mismatching_cells=stats['bad'],
                 directives_by_kind=stats['kinds'], uncovered_cells=stats['uncovered'],
-                unprintable_for_reload=stats.get('unprintable', 0))
+                unprintable_for_reload=stats['unprintable'])
     # ---- C2S
     if not only or 'C2S' in only:
         rng = ctx.rng
@@ -684,14 +750,12 @@ def run(ctx):
             es, errs, opts = lg.load_entries(a)
             rec.add(es, opts, 'random-loaded')
         if rec.n == 0 and ctx.violations:
-            rec.close()
             ctx.log('C2S: no ledger could be observed (violations already reported); nothing for TLC to judge')
-            ctx.exhaustive = False
-            return
-        corrupted = rec.selftest_line()
-        rec.close()
-        rejected = judge(ctx, rec, 'example ledger windows of 40 directives; random direct ledgers; random printed+loaded ledgers '
-                        '(booking, padding); reloaded generator ledgers', selftest=corrupted)
+        elif rec.n == 0:
+            raise MachineryError('C2S: nothing recorded')
+        else:
+            rec.finish('example ledger windows of 40 directives; random direct ledgers; random printed+loaded ledgers '
+                       '(booking, padding); reloaded generator ledgers')
     ctx.exhaustive = False
 
 
@@ -705,9 +769,9 @@ def replay(ctx, rep):
     entries, options = lg.build_entries(a)
     rec = Recorder(ctx, ctx.path('replay.ndjson'))
     before = len(ctx.violations)
+    rec.selftested = True      # a replay judges one line only
     rec.add(entries, options, 'replay', abstract=case['ledger'])
-    rec.close()
-    rejected = judge(ctx, rec, 'replay') if rec.n else []
+    rejected = rec.finish('replay') if rec.n else []
     bad = len(ctx.violations) > before or bool(rejected) or bool(ctx.known_hits)
     print('replay:', 'MISMATCH reproduced' if bad else 'no mismatch')
     return 1 if bad else 0
